@@ -228,6 +228,54 @@ pub fn run_check(check: &'static dyn Check, opts: RunOpts) -> i32 {
     // ---- hangs / aborts become failures through the check's policy
     let strict = opts.replay_only.is_some();
     let mut hang_viols = vec![];
+    // a watchdog hit is only believed when it reproduces in a fresh, otherwise idle worker with a longer deadline
+    let mut unconfirmed = 0u64;
+    if opts.replay_only.is_none() {
+        let mut kept = vec![];
+        for (n, h) in m.hangs.iter().enumerate() {
+            if h["kind"].as_str() != Some("hang") || h["phase"].as_u64() == Some(REPLAY_PHASE) {
+                kept.push(h.clone());
+                continue;
+            }
+            let cdir = format!("{}/confirm{}", workdir, n);
+            let _ = std::fs::create_dir_all(&cdir);
+            let mut rec = json!({"property": id, "phase_name": h["phase_name"], "tier": tier.name()});
+            if h["tape"].is_string() {
+                rec["tape_hex"] = h["tape"].clone();
+            } else {
+                rec["index"] = h["index"].clone();
+            }
+            let rfile = format!("{}/case.json", cdir);
+            let _ = std::fs::write(&rfile, rec.to_string());
+            let out = Command::new(&exe)
+                .arg("worker").arg(&id).arg(tier.name()).arg("0").arg("1").arg(seed.to_string()).arg(&cdir).arg("-").arg("confirm").arg(&rfile)
+                .stdin(Stdio::null()).stderr(Stdio::null()).output();
+            let finished = match &out {
+                Ok(o) => String::from_utf8_lossy(&o.stdout).lines().any(|l| l.contains("\"t\":\"done\"")),
+                Err(_) => false,
+            };
+            if finished {
+                unconfirmed += 1;
+                // the case completes when run alone: take over whatever it reports
+                if let Ok(o) = &out {
+                    for l in String::from_utf8_lossy(&o.stdout).lines() {
+                        if let Ok(v) = serde_json::from_str::<Value>(l) {
+                            if v["t"].as_str() == Some("viol") {
+                                let mut v = v.clone();
+                                v["phase"] = h["phase"].clone();
+                                v["phase_name"] = h["phase_name"].clone();
+                                v["index"] = h["index"].clone();
+                                m.viols.push(v);
+                            }
+                        }
+                    }
+                }
+            } else {
+                kept.push(h.clone());
+            }
+        }
+        m.hangs = kept;
+    }
     for h in &m.hangs {
         let phase = h["phase"].as_u64().unwrap_or(0);
         let index = h["index"].as_u64().unwrap_or(0);
@@ -296,7 +344,10 @@ pub fn run_check(check: &'static dyn Check, opts: RunOpts) -> i32 {
             "property": id, "phase_name": v["phase_name"], "tier": tier.name(), "seed": seed,
             "signature": sig, "detail": v["detail"], "rendered": v["rendered"], "shrunk": v["shrunk"],
         });
-        if v["tape"].is_string() {
+        if v["text"].is_string() {
+            rec["kind"] = json!("text");
+            rec["text"] = v["text"].clone();
+        } else if v["tape"].is_string() {
             rec["kind"] = json!("tape");
             rec["tape_hex"] = v["tape"].clone();
         } else {
@@ -366,6 +417,7 @@ pub fn run_check(check: &'static dyn Check, opts: RunOpts) -> i32 {
             "excluded_known": known_json,
             "replayed_files": m.per_phase.get("replays").copied().unwrap_or(0),
             "worker_respawns_after_hang_or_abort": m.respawns,
+            "watchdog_hits_not_reproduced_when_rerun_alone": unconfirmed,
             "inconclusive": m.harness_errors,
             "workers": nshards,
         });
